@@ -27,6 +27,7 @@ type UnitSpec struct {
 	TimeoutS   int      `json:"timeout_s,omitempty"`
 	MaxInline  int      `json:"max_inline,omitempty"`
 	MaxRec     int      `json:"max_rec,omitempty"`
+	AppendDouble bool   `json:"append_double,omitempty"`
 	Reveal     bool     `json:"reveal,omitempty"`
 	Paths      bool     `json:"paths,omitempty"`    // path mode (bounded lemmas): fork at branches, never merge
 	Ints       string   `json:"ints,omitempty"`     // "math": Go's int is a mathematical integer in this unit
@@ -183,6 +184,7 @@ func RunProperty(id, tier string) int {
 		opt.Overflow = us.Overflow
 		opt.Paths = us.Paths
 		opt.MaxRec = us.MaxRec
+		opt.AppendDouble = us.AppendDouble
 		if us.Ints == "math" && !us.Overflow {
 			notes.Assumed["int arithmetic treated as mathematical (no overflow obligations) in "+us.Func] = true
 		}
